@@ -35,7 +35,23 @@ def alias_write(dims, V, rng, op=None, dst=None, src=None, na=False, keep=False,
         return G.write_txt(op + ("n" if na else "") + ("k" if keep else ""), "s", rng.choice([2, 4, -2]) if op == "div" else rng.choice([2, 3, -1]), dst)
     return G.write_txt(op + ("n" if na else "") + ("k" if keep else ""), rk, rng.choice([2, 3, -1, 5]), dst, src, src2)
 
+def cap_mul(script, keep=1):
+    """the symbolic carrier squares its polynomials on every aliased `mul`: keep at most `keep` of them per script
+    (the others become `sub`), otherwise the harness itself needs gigabytes"""
+    ws = script.split("/"); seen = 0
+    for i, w in enumerate(ws):
+        f = w.split(".")
+        if f[0].startswith("mul") and f[1] in "ab":
+            seen += 1
+            if seen > keep:
+                f[0] = "sub" + f[0][3:]
+                ws[i] = ".".join(f)
+    return "/".join(ws)
+
 def scripts(dims, V, rng, quick):
+    return [cap_mul(s) for s in scripts0(dims, V, rng, quick)]
+
+def scripts0(dims, V, rng, quick):
     out = []
     n = dims[0]
     if len(dims) == 1:
@@ -101,12 +117,25 @@ def sym_groups(tier, seed):
                 ws = [alias_write(dims, V, r2, dst=list(fseqs), na=r2.random() < 0.6)]
                 for _ in range(r2.randint(0, 2)):
                     ws.append(alias_write(dims, V, r2, dst=list(fseqs), na=r2.random() < 0.2, keep=True, rk=r2.choice("aasb")))
-                sc.append("/".join(ws))
+                sc.append(cap_mul("/".join(ws)))
             rd = tuple(G.ext_of(t, n) for t, n in zip(fseqs, dims))
             fs = "(" + ", ".join("fseq<%d,%d,%d>" % t for t in fseqs) + ")"
             calls = ['VWF(Sym%d, %s, %s, %s, "%s");' % (sz, c05.tup(rd), c05.tup(dims), fs, s) for s in sc]
             groups.append({"key": "%s/sz%d/vea%d/%s" % (isa, sz, vea, name), "header": "view_write_sym.h", "isa": isa, "opt": "-O0",
                            "defs": ["-DFASTOR_USE_VECTORISED_EXPR_ASSIGN"] if vea else [], "calls": calls})
+    # the FASTOR_NO_ALIAS=1 cell (documented: "no aliasing is assumed", the guard is compiled out): the flag is stored
+    # and never tested, so every aliased statement takes the in-order path; recorded separately (route …-nal)
+    for (isa, sz) in ([("avx2", 4)] if quick else [("sse2", 8), ("avx2", 4), ("avx512", 4)]):
+        V = G.vwidth(isa, sz)
+        for which in (["a1"] if quick else ["a1", "a2", "a3"]):
+            dims = shapes(V, which)
+            r2 = random.Random(rng.random())
+            sc = [alias_write(dims, V, r2, na=True) for _ in range(60 if quick else 400)]
+            sc += [alias_write(dims, V, r2, na=True, perfect=True) for _ in range(20 if quick else 100)]
+            rd = tuple(1 for _ in dims)
+            calls = ['VW(Sym%d, %s, %s, "%s");' % (sz, c05.tup(rd), c05.tup(dims), s) for s in sc]
+            groups.append({"key": "%s/sz%d/vea0/nal-%s" % (isa, sz, which), "header": "view_write_sym.h", "isa": isa, "opt": "-O0",
+                           "defs": ["-DFASTOR_NO_ALIAS=1"], "calls": calls})
     return c05.only_filter(groups)
 
 def real_groups(tier, seed):
